@@ -143,6 +143,9 @@ fn main() {
                 if let Some(bb) = carried {
                     rep.count("carried_board_positions");
                     let want = p.to_fen();
+                    // what every user of the board does between two moves: enumerate the legal moves
+                    // (which makes and unmakes every pseudo-legal move on this very board)
+                    if rng.gen_range(0..2) == 0 { let _ = monlib::guarded_mut(|| bb.generate_legal_moves().len()); }
                     match adapter::fen_of(bb) {
                         Ok(got) => if got != want {
                             rep.violation(&format!("carried-board-drift:{}", adapter::fen_fields_diff(&got, &want)), format!("board carried along a walk spells {} but the rules give {}", got, want), monlib::json!({"kind":"c02","fen":want}));
